@@ -211,7 +211,9 @@ fn exec(r: &Run, rep: &mut Report) -> Option<(Value, String)> {
         0 => "out".to_string(),
         1 => out.to_string_lossy().to_string(),
         2 => "out/".to_string(),
-        _ => "./out".to_string(),
+        3 => "./out".to_string(),
+        // absolute but not canonical: a '.' component and a detour through a sibling directory
+        _ => format!("{}/./outside_dir/../out", sb.to_string_lossy()),
     };
     let mut args: Vec<String> = vec!["extract".into(), "-i".into(), arch_path.to_string_lossy().to_string(), "-o".into(), outarg];
     let mut selected: Vec<String> = r.names.clone();
@@ -376,7 +378,7 @@ fn runs(thorough: bool) -> (Vec<Run>, Value) {
     let mut out = Vec::new();
     for (gi, g) in groups.iter().enumerate() {
         let compress = gi % 2 == 1;
-        for of in 0..4u8 {
+        for of in 0..5u8 {
             for sym in [false, true] {
                 // quick: rotate instead of the full product for the cheap dimensions
                 if !thorough && (of as usize + gi) % 2 == 1 && sym {
@@ -386,7 +388,7 @@ fn runs(thorough: bool) -> (Vec<Run>, Value) {
             }
         }
         for sym in [false, true] {
-            out.push(Run { names: g.clone(), compress, form: "glob-star".into(), outdir_form: (gi % 4) as u8, symlink: sym, prefill: false, filelink: false });
+            out.push(Run { names: g.clone(), compress, form: "glob-star".into(), outdir_form: (gi % 5) as u8, symlink: sym, prefill: false, filelink: false });
         }
         // a symbolic link to a file outside, at the destination of a benign member
         out.push(Run { names: g.clone(), compress, form: "whole".into(), outdir_form: (gi % 4) as u8, symlink: false, prefill: false, filelink: true });
@@ -412,7 +414,7 @@ fn runs(thorough: bool) -> (Vec<Run>, Value) {
         "grammar": "c1/.../ck, k <= 3 (thorough 4), components {.., ., empty, zq_a, zq_b, unicode, '..zq', '...', 'zq_a\\..\\zq_b' and '..\\zq_c' (ordinary single components on this platform: dots or backslashes inside a name are not path syntax), 255 x n, 300 x n}, with/without leading and trailing '/'",
         "classes": by.iter().map(|(k, v)| (format!("{k:?}"), v.len())).collect::<BTreeMap<_, _>>(),
         "archives": groups.len(),
-        "forms": "whole archive (linear), --glob '*', a listed name, --glob with the exact name; output dir argument relative / absolute / trailing slash / ./relative; output tree absent, pre-existing with a directory symlink leaving the output directory, pre-existing with longer files at every benign destination (each form), or pre-existing with a symbolic link to a file outside at the destination of a benign member",
+        "forms": "whole archive (linear), --glob '*', a listed name, --glob with the exact name; output dir argument relative / absolute / trailing slash / ./relative / absolute with '.' and '..' components; output tree absent, pre-existing with a directory symlink leaving the output directory, pre-existing with longer files at every benign destination (each form), or pre-existing with a symbolic link to a file outside at the destination of a benign member",
     });
     (out, bounds)
 }
